@@ -607,7 +607,10 @@ def gen_complex(rng, tier):
     kind = str(rng.choice(["MakeComplex", "RealPart", "ImagPart", "ComplexNorm"]))
     sh = [(), (5,), (2, 3)][int(rng.integers(3))]
 
-    mag = 10.0 ** rng.uniform(-9, 9) if rng.random() < 0.4 else 1.0      # phasors in nm or GPa: no operation here has an absolute scale
+    # phasors in nm or GPa: no operation here has an absolute scale
+    mag = 1.0
+    if rng.random() < 0.5:
+        mag = 10.0 ** (rng.uniform(-9, -3) if rng.random() < 0.6 else rng.uniform(-3, 9))
 
     def val(c):
         a = (rng.standard_normal(sh) + (1j * rng.standard_normal(sh) if c else 0)) * mag
@@ -716,4 +719,4 @@ GENERATORS = {
     "aggregation": gen_aggregation, "scaling": gen_scaling,
 }
 WEIGHTS = {"assemble": 5, "elemop": 5, "filter": 4, "overhang": 4, "linsolve": 6, "inverse": 2, "soe": 4, "sc": 3,
-           "eig_dense": 4, "eig_sparse": 2, "math": 4, "einsum": 4, "concat": 3, "complex": 3, "aggregation": 4, "scaling": 2}
+           "eig_dense": 4, "eig_sparse": 2, "math": 4, "einsum": 4, "concat": 3, "complex": 5, "aggregation": 4, "scaling": 2}
